@@ -27,6 +27,8 @@ CONCS = [
     {"unit": 1.0, "off": 7, "tbase": 946684799},       # 1999-12-31T23:59:59
     {"unit": 1.0, "off": 0, "tbase": 7258118461},      # 2200-01-01T00:01:01 (nanosecond stamps beyond 2^53)
     {"unit": 0.25, "off": 0, "tbase": -5364662339},    # 1800-01-01T00:01:01
+    {"unit": 2.0 ** -16, "off": 0, "tbase": 1577836800},   # tiny magnitudes: products of steps fall below 1e-8 (absolute tolerances)
+    {"unit": 4096.0, "off": -1, "tbase": 0},                # large magnitudes
 ]
 
 
@@ -734,6 +736,15 @@ def extra_tighten_clim(ctx, rec):
         rec.session(steps, CONCS[rep % 2])
 
 
+def extra_flat_fractional(ctx, rec):
+    """C11: durations given as floats with a fractional part (179.7 s): the number of steps is floor(duration / step)"""
+    g = gen_qc.Gen(ctx.seed + 157, size=ctx.pick(8, 14))
+    for rep in range(ctx.pick(150, 1200)):
+        c = g.base("flat")
+        fr = [0.5, 0.7, 0.999, 0.25][rep % 4]
+        rec.session([({"kind": "base", "i": 0, "k": 0}, c)], dict(CONCS[rep % 2], thrfrac=fr, thrtype=("np" if rep % 3 == 0 else "py")))
+
+
 def extra_far_origins(ctx, rec):
     """C17: the same relative time axis on origins centuries apart (a shift by a constant too large for the model's
     integers, so it is expressed through the concretisation): 1800, 1970, 2020, 2200 -- where nanosecond stamps leave
@@ -941,7 +952,7 @@ PLAN = {
     "C11": {"repo_fns": ["flat"], "mc": T([M("flat5", ["flat"], ["recall"], 5, budget=16000)],
                     [M("flat5", ["flat"], ["shiftv", "tighten"], 5, big=True, budget=150000)]),
             "random": {"fns": ["flat"], "count": (500, 8000), "kinds": ["negate", "shiftt"], "size": (10, 30)},
-            "extra": [extra_long_series, extra_big_offsets, extra_repo_tests]},
+            "extra": [extra_flat_fractional, extra_long_series, extra_big_offsets, extra_repo_tests]},
     "C12": {"repo_fns": ["att"], "mc": T([M("att3", ["att"], ["shiftt"], 3, budget=16000)],
                     [M("att4", ["att"], ["shiftt", "shiftv"], 4, big=True, budget=150000)]),
             "random": {"fns": ["att"], "count": (400, 6000), "kinds": ["shiftv"], "size": (8, 24)},
